@@ -40,11 +40,11 @@ func optionsFilters(p *Program) []*ssa.Function {
 			continue
 		}
 		calls := false
-		eachInstr(fn, func(i ssa.Instruction) {
-			if cc := callCommon(i); cc != nil && cc.StaticCallee() != nil && cc.StaticCallee().Name() == "computeAllowedMethods" {
+		for f := range p.callGraph().reach([]*ssa.Function{fn}, func(e Edge) bool { return e.Kind != EdgeStatic }) {
+			if f.Name() == "computeAllowedMethods" && f != fn {
 				calls = true
 			}
-		})
+		}
 		if calls {
 			out = append(out, fn)
 		}
@@ -141,16 +141,45 @@ func ruleC17a(c *Ctx) {
 
 func ruleC17b(c *Ctx) {
 	p := c.P
-	for _, fn := range optionsFilters(p) {
+	for _, filter := range optionsFilters(p) {
+		// the function that writes the two headers: the filter itself or a helper it calls with its own request
+		fn := filter
+		vals := map[string]ssa.Value{}
+		collect := func(f *ssa.Function) map[string]ssa.Value {
+			m := map[string]ssa.Value{}
+			eachInstr(f, func(i ssa.Instruction) {
+				k, kc, v, ok := headerWrite(i)
+				if ok && kc && (k == "Allow" || k == "Access-Control-Allow-Methods") {
+					m[k] = strip(v)
+				}
+			})
+			return m
+		}
+		vals = collect(filter)
+		if len(vals) == 0 {
+			frq := requestParam(filter)
+			eachInstr(filter, func(i ssa.Instruction) {
+				cc := callCommon(i)
+				if cc == nil || cc.StaticCallee() == nil || !p.inModule(cc.StaticCallee()) {
+					return
+				}
+				h := cc.StaticCallee()
+				if m := collect(h); len(m) > 0 {
+					// the helper must be told about this request
+					passes := false
+					for k, a := range cc.Args {
+						if k < len(h.Params) && h.Params[k] == requestParam(h) && frq != nil && p.sameValue(a, frq) {
+							passes = true
+						}
+					}
+					if passes {
+						fn, vals = h, m
+					}
+				}
+			})
+		}
 		name := p.fname(fn)
 		rq := requestParam(fn)
-		vals := map[string]ssa.Value{}
-		eachInstr(fn, func(i ssa.Instruction) {
-			k, kc, v, ok := headerWrite(i)
-			if ok && kc && (k == "Allow" || k == "Access-Control-Allow-Methods") {
-				vals[k] = strip(v)
-			}
-		})
 		a, b := vals["Allow"], vals["Access-Control-Allow-Methods"]
 		if a == nil || b == nil {
 			c.bad(name, "Allow and Access-Control-Allow-Methods are both set", p.pos(fn.Pos()), "one of the two headers is missing")
@@ -259,7 +288,18 @@ func summariseAcceptance(p *Program, fn *ssa.Function) *acceptanceSummary {
 	}
 	condConst := func(cond ssa.Value, pol bool) (string, bool) {
 		bo, ok := cond.(*ssa.BinOp)
-		if !ok || bo.Op != token.EQL || !pol {
+		if !ok {
+			return "", false
+		}
+		if !pol {
+			// (a != b) false  ==  (a == b) true
+			comp, has := complementOp[bo.Op]
+			if !has {
+				return "", false
+			}
+			bo = synthBinOp(comp, bo.X, bo.Y)
+		}
+		if bo.Op != token.EQL {
 			return "", false
 		}
 		for _, pr := range [][2]ssa.Value{{bo.X, bo.Y}, {bo.Y, bo.X}} {
@@ -338,6 +378,72 @@ func summariseAcceptance(p *Program, fn *ssa.Function) *acceptanceSummary {
 	return s
 }
 
+// summariseAcceptanceDeep follows one level of helper extraction: when fn itself does not apply a route
+// expression, a module helper it calls (with the remainder and the routes) is summarised instead, and the
+// facts about the call site (remainder provenance, loop over services, accessor) are taken from fn.
+func summariseAcceptanceDeep(p *Program, fn *ssa.Function) *acceptanceSummary {
+	s := summariseAcceptance(p, fn)
+	if s.RouteMatch != nil {
+		return s
+	}
+	var svcMatch *ssa.Call
+	eachInstr(fn, func(i ssa.Instruction) {
+		if call, ok := i.(*ssa.Call); ok && calleeName(&call.Call) == "(*regexp.Regexp).FindStringSubmatch" && matcherLevel(call.Call.Args[0]) == "service" {
+			svcMatch = call
+		}
+	})
+	cyc := blocksOnCycles(fn)
+	var best *acceptanceSummary
+	eachInstr(fn, func(i ssa.Instruction) {
+		call, ok := i.(*ssa.Call)
+		if !ok || call.Call.StaticCallee() == nil || !p.inModule(call.Call.StaticCallee()) || call.Call.StaticCallee() == fn {
+			return
+		}
+		h := summariseAcceptance(p, call.Call.StaticCallee())
+		if h.RouteMatch == nil {
+			return
+		}
+		// remainder: the helper's parameter must be bound to the final group of the service match
+		if prm, isParam := strip(h.RouteMatch.Call.Args[1]).(*ssa.Parameter); isParam {
+			h.RemainderOK = ""
+			for k, q := range call.Call.StaticCallee().Params {
+				if q == prm && k < len(call.Call.Args) {
+					if src, ok := lastElementOf(call.Call.Args[k]); ok && svcMatch != nil && src == ssa.Value(svcMatch) {
+						h.RemainderOK = "last group of the service expression's match on the request path (passed to " + call.Call.StaticCallee().Name() + ")"
+					} else if _, isP := strip(call.Call.Args[k]).(*ssa.Parameter); isP {
+						h.RemainderOK = "parameter (the caller passes the service match's final group)"
+					}
+				}
+			}
+		}
+		// the call sits in a loop over services?
+		for b := call.Block(); b != nil; b = b.Idom() {
+			if !cyc[b] {
+				continue
+			}
+			for _, ins := range b.Instrs {
+				if ia, ok := ins.(*ssa.IndexAddr); ok {
+					if pt, ok := ia.Type().Underlying().(*types.Pointer); ok && isPtrToRestful(pt.Elem(), "WebService") {
+						h.OverAll = true
+					}
+				}
+			}
+		}
+		// routes through the accessor at the call site
+		for _, a := range call.Call.Args {
+			if ac, ok := strip(a).(*ssa.Call); ok && ac.Call.StaticCallee() != nil && ac.Call.StaticCallee().Name() == "Routes" {
+				h.ViaAccessor = true
+			}
+		}
+		h.Fn = fn
+		best = h
+	})
+	if best != nil {
+		return best
+	}
+	return s
+}
+
 func ruleC17d(c *Ctx) {
 	p := c.P
 	cam := p.fn("(*Container).computeAllowedMethods")
@@ -346,7 +452,7 @@ func ruleC17d(c *Ctx) {
 		c.undecided("-", "computeAllowedMethods / RouterJSR311.selectRoutes", "-", "one of the sibling computations was not found")
 		return
 	}
-	a, b := summariseAcceptance(p, cam), summariseAcceptance(p, sel)
+	a, b := summariseAcceptanceDeep(p, cam), summariseAcceptanceDeep(p, sel)
 	for _, s := range []*acceptanceSummary{a, b} {
 		name := p.fname(s.Fn)
 		if s.RouteMatch == nil {
